@@ -224,7 +224,8 @@ class ABNF:
         fin: int
             fin flag. if set to 0, create continue fragmentation.
         """
-        if opcode == ABNF.OPCODE_TEXT and isinstance(data, str):
+        if isinstance(data, str):
+            # text is sent as its UTF-8 bytes, also in a continuation frame
             data = data.encode("utf-8")
         # mask must be set if send data from client
         return ABNF(fin, 0, 0, 0, opcode, 1, data)
